@@ -85,6 +85,12 @@ Fixpoint blockmap (l : list A) (x : list T) : list B :=
   end.
 End Blocks.
 Definition vsum (m : nat) (l : list (list T)) : list T := fold_right vadd (vconst m nzero) l.
+(* part j of a flat element of the product space with part sizes cs; and the
+   flat element of the product space rs that is v in part i and zero elsewhere *)
+Definition proj (cs : list nat) (j : nat) (x : list T) : list T :=
+  firstn (nth j cs 0%nat) (skipn (list_sum (firstn j cs)) x).
+Definition embed (rs : list nat) (i : nat) (v : list T) : list T :=
+  vconst (list_sum (firstn i rs)) nzero ++ v ++ vconst (list_sum (skipn (S i) rs)) nzero.
 
 (* ---------- leaves ---------- *)
 Inductive leaf :=
@@ -166,7 +172,10 @@ Inductive oexpr :=
 | OFLVec (a : oexpr) (v : list T)    (* FunctionalLeftVectorMult: v * a(x), a scalar-valued *)
 | OBroadcast (ops : list oexpr)      (* BroadcastOperator:  x |-> [op_i(x)] *)
 | OReduction (ops : list oexpr)      (* ReductionOperator:  [x_i] |-> sum_i op_i(x_i) *)
-| ODiagonal (ops : list oexpr).      (* DiagonalOperator:   [x_i] |-> [op_i(x_i)] *)
+| ODiagonal (ops : list oexpr)       (* DiagonalOperator:   [x_i] |-> [op_i(x_i)] *)
+(* ProductSpaceOperator: sparse matrix of operators in COO order (row, col, op)
+   between ProductSpace(rn(cs_j)) and ProductSpace(rn(rs_i)):  out[i] += op(x[j]) *)
+| OPSO (cs rs : list nat) (ents : list (nat * nat * oexpr)).
 
 Fixpoint dom (e : oexpr) : space :=
   match e with
@@ -175,6 +184,7 @@ Fixpoint dom (e : oexpr) : space :=
   | OSum a _ | OVecSum a _ | OPProd a _ | OLScal a _ | ORScal a _ | OLVec a _ | ORVec a _ | OFLVec a _ => dom a
   | OBroadcast ops => match ops with a :: _ => dom a | [] => SV 0 end
   | OReduction ops | ODiagonal ops => SP (map (fun a => sdim (dom a)) ops)
+  | OPSO cs _ _ => SP cs
   end.
 Fixpoint ran (e : oexpr) : space :=
   match e with
@@ -183,6 +193,7 @@ Fixpoint ran (e : oexpr) : space :=
   | OSum a _ | OVecSum a _ | OComp a _ | OPProd a _ | OLScal a _ | ORScal a _ | OLVec a _ | ORVec a _ => ran a
   | OReduction ops => match ops with a :: _ => ran a | [] => SV 0 end
   | OBroadcast ops | ODiagonal ops => SP (map (fun a => sdim (ran a)) ops)
+  | OPSO _ rs _ => SP rs
   end.
 Definition dsize (a : oexpr) : nat := sdim (dom a).
 
@@ -195,6 +206,7 @@ Fixpoint is_lin (e : oexpr) : bool :=
   | OPProd _ _ => false                (* linear=False hard-coded *)
   | OLScal a _ | ORScal a _ | OLVec a _ | ORVec a _ | OFLVec a _ => is_lin a
   | OBroadcast ops | OReduction ops | ODiagonal ops => forallb is_lin ops   (* all(op.is_linear) *)
+  | OPSO _ _ ents => forallb (fun t : nat * nat * oexpr => let '(_, _, a) := t in is_lin a) ents
   end.
 
 (* the domain/range checks of the constructors *)
@@ -223,6 +235,11 @@ Fixpoint wt (e : oexpr) : bool :=
       | [] => false
       | _ :: _ => forallb (fun a => wt a && is_SV (dom a) && is_SV (ran a)) ops
       end
+  | OPSO cs rs ents =>
+      forallb (fun t : nat * nat * oexpr =>
+                 let '(i, j, a) := t in
+                 wt a && Nat.ltb i (length rs) && Nat.ltb j (length cs)
+                 && space_eqb (dom a) (SV (nth j cs 0%nat)) && space_eqb (ran a) (SV (nth i rs 0%nat))) ents
   end.
 
 Fixpoint eval (e : oexpr) (x : list T) : list T :=
@@ -241,6 +258,10 @@ Fixpoint eval (e : oexpr) (x : list T) : list T :=
   | OReduction ops =>
       vsum (match ops with a :: _ => sdim (ran a) | [] => 0%nat end) (blockmap eval dsize ops x)
   | ODiagonal ops => concat (blockmap eval dsize ops x)
+  | OPSO cs rs ents =>
+      fold_right (fun (t : nat * nat * oexpr) acc =>
+                    let '(i, j, a) := t in vadd (embed rs i (eval a (proj cs j x))) acc)
+                 (vconst (list_sum rs) nzero) ents
   end.
 
 (* ---------- the overloads used while building derivatives ---------- *)
@@ -298,6 +319,11 @@ Fixpoint derivative (e : oexpr) (x : list T) : oexpr :=
   | OBroadcast ops => OBroadcast (map (fun a => derivative a x) ops)
   | OReduction ops => OReduction (blockmap derivative dsize ops x)
   | ODiagonal ops => ODiagonal (blockmap derivative dsize ops x)
+  (* linear => self; else every entry at ITS column's part of the point, same domain/range *)
+  | OPSO cs rs ents =>
+      if forallb (fun t : nat * nat * oexpr => let '(_, _, a) := t in is_lin a) ents then e
+      else OPSO cs rs (map (fun t : nat * nat * oexpr =>
+                              let '(i, j, a) := t in (i, j, derivative a (proj cs j x))) ents)
   end.
 
 Fixpoint deriv_ok (e : oexpr) (x : list T) : bool :=
@@ -313,6 +339,9 @@ Fixpoint deriv_ok (e : oexpr) (x : list T) : bool :=
   | ORVec a v => is_lin a || deriv_ok a (vmul v x)
   | OBroadcast ops => forallb (fun a => deriv_ok a x) ops
   | OReduction ops | ODiagonal ops => forallb (fun b => b) (blockmap deriv_ok dsize ops x)
+  | OPSO cs _ ents =>
+      forallb (fun t : nat * nat * oexpr => let '(_, _, a) := t in is_lin a) ents
+      || forallb (fun t : nat * nat * oexpr => let '(_, j, a) := t in deriv_ok a (proj cs j x)) ents
   end.
 
 End Model.
@@ -320,7 +349,7 @@ End Model.
 Arguments OLeaf {T}. Arguments OSum {T}. Arguments OVecSum {T}. Arguments OComp {T}.
 Arguments OPProd {T}. Arguments OLScal {T}. Arguments ORScal {T}. Arguments OLVec {T}.
 Arguments ORVec {T}. Arguments OFLVec {T}. Arguments OBroadcast {T}. Arguments OReduction {T}.
-Arguments ODiagonal {T}.
+Arguments ODiagonal {T}. Arguments OPSO {T}.
 Arguments LScale {T}. Arguments LMul {T}. Arguments LMat {T}. Arguments LInner {T}.
 Arguments LZero {T}. Arguments LConst {T}. Arguments LPow {T}. Arguments LUf {T}.
 Arguments LNorm {T}. Arguments LDist {T}. Arguments LAbs {T}. Arguments LAbsD {T}.
